@@ -158,7 +158,7 @@ func run(c *core.Ctx) {
 	}
 	// ---- shared values (built by the main goroutine before anything runs)
 	k := gen.DrawKnobs(t)
-	k.IDless = false // the shared value and its list members carry ids; single embedded objects may still lack one below
+	// (list members always carry ids; with the IDless knob a single embedded object may lack id and type)
 	g := gen.New(t, k)
 	pos0 := len(t.Recorded())
 	v := g.Top()
